@@ -1287,6 +1287,54 @@ def _from_instructor_vars(fn, bl):
     return False
 
 
+def _blacklist_filter_escape(fn, bl, scope_names):
+    """The conditions under which an entry of config['instructor_vars'] is put on the black-list `bl`. The names that must
+    be removed are the listed ones that are *in the sample* (the scope the student's sum is evaluated in: numbered-variable
+    instances and sibling values appear there and nowhere else), so every membership filter must test the sample / the scope
+    (`var in var_samples[k]`, `var in varlist`, their .keys()/set()). Returns the source of a filter whose right-hand side,
+    after following single-assigned locals, mentions neither (names in the sample but outside that set stay available to
+    the student), else None. Filters that are not membership tests are left to the origin rule (not decided here)."""
+    conds = []
+    for f in walk_own(fn):
+        if isinstance(f, ast.For) and lib.is_config(f.iter, 'instructor_vars') and isinstance(f.target, ast.Name):
+            for s in f.body:
+                if isinstance(s, ast.If) and X.find_stmts(s, "%s.append(%s)" % (bl, f.target.id), own=False):
+                    conds.append((f.target.id, s.test))
+    for v in lib.assigned_value(fn, bl):
+        comp = v
+        if isinstance(v, ast.Call) and isinstance(v.func, ast.Name) and v.func.id in ('list', 'set', 'tuple') and len(v.args) == 1:
+            comp = v.args[0]
+        if isinstance(comp, (ast.ListComp, ast.SetComp, ast.GeneratorExp)) and len(comp.generators) == 1 \
+                and lib.is_config(comp.generators[0].iter, 'instructor_vars') and isinstance(comp.generators[0].target, ast.Name):
+            for c in comp.generators[0].ifs:
+                conds.append((comp.generators[0].target.id, c))
+
+    def mentions(e, depth=0):
+        names = {n.id for n in ast.walk(e) if isinstance(n, ast.Name)}
+        if names & scope_names:
+            return True
+        if depth >= 3:
+            return None
+        res = False
+        for n in names:
+            for v in lib.assigned_value(fn, n):
+                m = mentions(v, depth + 1)
+                if m:
+                    return True
+                if m is None:
+                    res = None
+        # parameters of the function are not followed: their content is the caller's
+        args = {a.arg for a in fn.args.args + fn.args.kwonlyargs}
+        if names & args - {'self'}:
+            return None
+        return res
+    for var, c in conds:
+        if isinstance(c, ast.Compare) and len(c.ops) == 1 and isinstance(c.ops[0], ast.In) and X.is_name(c.left, var):
+            if mentions(c.comparators[0]) is False:
+                return ast.unparse(c)
+    return None
+
+
 def _scrub_manager(idx, fi, call):
     """If `call` sits in `with M(scope, names) [as t]:` where M is a class whose __enter__ removes the entries listed in
     its names attribute from its scope attribute, return {'with', 'scope', 'names', 'target', 'same'} (same: __enter__
@@ -1451,7 +1499,14 @@ def d3_author(ctx, idx):
             between = X.passes_between(fi, ac, [loop if isinstance(loop, ast.For) and loop is not X.enclosing_loop(ac) else dels[0]], sc)
             r.check(between, construct, 'every path from the author\'s call to the student\'s passes the deletion',
                     "a path reaches the student's evaluate_sum without deleting the instructor variables", lib.loc(fi, dels[0]))
-            if src_ok:
+            esc = _blacklist_filter_escape(fn, bl, {VS, 'var_samples'}) if bl else None
+            if esc:
+                r.violation("gen_evaluations: the deleted names come from config['instructor_vars']",
+                            "the black-list keeps only the instructor variables with `%s`, a set that is not the sample the student's sum is "
+                            "evaluated in: an instructor-only name that is in the sample but not in that set (a numbered-variable "
+                            "instance such as a_{1}) is never deleted and stays available to the student" % esc, lib.loc(fi, dels[0]),
+                            expected='if var in var_samples[0]', found=esc)
+            elif src_ok:
                 r.ok("gen_evaluations: the deleted names come from config['instructor_vars']", bl or 'instructor_vars', lib.loc(fi, dels[0]))
             else:
                 r.undecided("gen_evaluations: the deleted names come from config['instructor_vars']", 'origin of the deleted keys not recognised',
@@ -2092,6 +2147,7 @@ MUTANTS = [
     Mutant('author-handler-narrowed', IG, "            except MITxError as error:", "            except SummationError as error:", 'D3'),
     Mutant('author-error-class', IG, "                msg = \"Summation Error with author's stored answer: {}\"\n                raise ConfigError(msg.format(str(error)))",
            "                msg = \"Summation Error with author's stored answer: {}\"\n                raise SummationError(msg.format(str(error)))", 'D3'),
+    Mutant('blacklist-filtered-by-declared-names', IG, "        # Similar to FormulaGrader, but specialized to SumGrader\n        funclist = self.functions.copy()\n        varlist = {}\n\n        instructor_evals = []\n        student_evals = []\n\n        # Create a list of instructor variables to remove from student evaluation\n        var_blacklist = []\n        for var in self.config['instructor_vars']:\n            if var in var_samples[0]:\n                var_blacklist.append(var)\n", "        # Similar to FormulaGrader, but specialized to SumGrader\n        funclist = self.functions.copy()\n        varlist = {}\n\n        instructor_evals = []\n        student_evals = []\n\n        # Create a list of instructor variables to remove from student evaluation\n        declared = set(self.config['variables']).union(self.constants)\n        var_blacklist = []\n        for var in self.config['instructor_vars']:\n            if var in declared:\n                var_blacklist.append(var)\n", 'D3'),
     Mutant('instructor-vars-kept', IG, "            for key in var_blacklist:\n                del varlist[key]\n                \n            # Evaluate sums.", "            # Evaluate sums.", 'D3'),
     Mutant('sample-not-loaded', IG, "            varlist.update(var_samples[i])\n\n            # Evaluate sums. Error handling here is to catch author errors.",
            "            # Evaluate sums. Error handling here is to catch author errors.", 'D3'),
@@ -2139,6 +2195,7 @@ BENIGN = [
            "        has_factorial = any(name in used_funcs for name in ('fact', 'factorial'))\n        infty_val = self.config['infty_val_fact' if has_factorial else 'infty_val']\n"),
     Benign('blank-check-with-next', IG, "        for key in structured_input:\n            if structured_input[key] == '':\n                msg = \"Please enter a value for {key}, it cannot be empty.\"\n                raise MissingInput(msg.format(key=key))\n",
            "        blank_key = next((key for key in structured_input if structured_input[key] == ''), None)\n        if blank_key is not None:\n            raise MissingInput('Please enter a value for {}, it cannot be empty.'.format(blank_key))\n"),
+    Benign('blacklist-filtered-by-sample-key-set', IG, "        # Similar to FormulaGrader, but specialized to SumGrader\n        funclist = self.functions.copy()\n        varlist = {}\n\n        instructor_evals = []\n        student_evals = []\n\n        # Create a list of instructor variables to remove from student evaluation\n        var_blacklist = []\n        for var in self.config['instructor_vars']:\n            if var in var_samples[0]:\n                var_blacklist.append(var)\n", "        # Similar to FormulaGrader, but specialized to SumGrader\n        funclist = self.functions.copy()\n        varlist = {}\n\n        instructor_evals = []\n        student_evals = []\n\n        # Create a list of instructor variables to remove from student evaluation\n        sampled = set(var_samples[0])\n        var_blacklist = []\n        for var in self.config['instructor_vars']:\n            if var in sampled:\n                var_blacklist.append(var)\n"),
     Benign('blacklist-as-comprehension', IG, "        var_blacklist = []\n        for var in self.config['instructor_vars']:\n            if var in var_samples[0]:\n                var_blacklist.append(var)\n\n        for i in range(self.config['samples']):\n            # Update the functions and variables listings with this sample\n            funclist.update(func_samples[i])\n            varlist.update(var_samples[i])\n\n            # Evaluate sums.",
            "        var_blacklist = [var for var in self.config['instructor_vars'] if var in var_samples[0]]\n\n        for i in range(self.config['samples']):\n            # Update the functions and variables listings with this sample\n            funclist.update(func_samples[i])\n            varlist.update(var_samples[i])\n\n            # Evaluate sums."),
     Benign('parity-branches-merged', IG, "        if even_odd == 1:\n            # Odd numbers only\n            delta = 2\n            if abs(lower % 2) != 1:\n                lower += 1\n        elif even_odd == 2:\n            # Even numbers only\n            delta = 2\n            if abs(lower % 2) != 0:\n                lower += 1\n        else:\n            delta = 1\n",
